@@ -17,7 +17,7 @@ from .ast import Node, REPO
 
 VERIF = os.path.dirname(os.path.dirname(os.path.abspath(__file__)))
 CACHE = os.path.join(VERIF, '.cache')
-FRONTEND_VERSION = '10'
+FRONTEND_VERSION = '13'
 
 
 class AnalysisBroken(Exception):
@@ -373,6 +373,86 @@ class Program(object):
         return [f for f in self.funcs.values() if f.in_repo]
 
 
+_CLONE_N = [0]
+
+
+def _clone(n, mapping, line, col, file):
+    """deep copy of an expression; references to the helper's parameters are replaced by (copies of) the arguments"""
+    from .ast import Node
+    if n.kind == 'DeclRefExpr' and n.refid in mapping:
+        return _clone(mapping[n.refid], {}, line, col, file)
+    m = Node()
+    for sl in Node.__slots__:
+        if sl not in ('kids', 'uid'):
+            setattr(m, sl, getattr(n, sl))
+    _CLONE_N[0] += 1
+    m.uid = -_CLONE_N[0]
+    m.line, m.col, m.file = line, col, file
+    m.kids = [_clone(c, mapping, line, col, file) for c in n.kids]
+    return m
+
+
+def inline_expression_helpers(prog):
+    """Program normalisation: a call to a file-local helper whose whole body is `return <expression>;` is replaced by that
+    expression with the arguments substituted (wrapped in parentheses).  Extracting a repeated expression into such a helper
+    (or the reverse) is a common maintenance edit and must not change what the rules see.  Only helpers defined in a .c file
+    are expanded (the header API - mzd_row, mzd_read_bit, ... - is what the rules are written against); the helper itself is
+    no longer analysed on its own (its parameters have no meaning outside a call)."""
+    helpers = {}
+    for f in prog.all_funcs():
+        b = f.body
+        if not (f.static and (f.file or '').endswith('.c') and b is not None and len(b.kids) == 1 and b.kids[0].kind == 'ReturnStmt' and b.kids[0].kids):
+            continue
+        expr = b.kids[0].kids[0]
+        pids = set(p.id for p in f.params)
+        # parameters are only read; no call to itself; no address-of
+        bad = False
+        for x in expr.walk():
+            if x.kind == 'UnaryOperator' and x.op in ('&', '++', '--') and any(y.kind == 'DeclRefExpr' and y.refid in pids for y in x.walk()):
+                bad = True
+            if x.kind in ('CompoundAssignOperator',) or (x.kind == 'BinaryOperator' and x.op == '='):
+                bad = True
+            if x.kind == 'DeclRefExpr' and x.refkind == 'FunctionDecl' and x.ref == f.name:
+                bad = True
+        if not bad:
+            helpers[(f.name, f.file)] = f
+    if not helpers:
+        prog.inlined_helpers = []
+        return
+    done = set()
+    for rounds in range(3):
+        changed = False
+        for f in prog.all_funcs():
+            if f.body is None:
+                continue
+            for n in f.body.walk():
+                if n.kind != 'CallExpr' or not n.kids:
+                    continue
+                c0 = n.kids[0]
+                while c0.kind in ('ImplicitCastExpr', 'ParenExpr') and c0.kids:
+                    c0 = c0.kids[0]
+                if c0.kind != 'DeclRefExpr' or c0.refkind != 'FunctionDecl':
+                    continue
+                g = helpers.get((c0.ref, f.file))
+                if g is None or g is f or len(n.kids) - 1 != len(g.params):
+                    continue
+                mapping = dict((p.id, a) for p, a in zip(g.params, n.kids[1:]))
+                body = _clone(g.body.kids[0].kids[0], mapping, n.line, n.col, n.file)
+                # turn the call node into a parenthesised copy of the helper's expression (in place: parents keep their child)
+                n.kind, n.kids, n.op, n.val, n.ref, n.refid, n.refkind = 'ParenExpr', [body], None, None, None, None, None
+                done.add((g.name, g.file))
+                changed = True
+        if not changed:
+            break
+    prog.inlined_helpers = sorted(done)
+    for (name, file) in done:
+        g = helpers[(name, file)]
+        if prog.funcs.get(name) is g:
+            del prog.funcs[name]
+        if prog.alt.get((name, file)) is g:
+            del prog.alt[(name, file)]
+
+
 def _merge(prog, unit, decls):
     for n in decls:
         if n.kind == 'FunctionDecl':
@@ -453,6 +533,7 @@ def load_program(cfg, ndebug=True, verbose=False, extra_units=None):
         # a configuration that does not type-check is a *finding* for rule J1, not a broken analysis;
         # the caller decides. The model is still cached.
         pass
+    inline_expression_helpers(prog)
     # static locals
     for f in prog.all_funcs():
         for n in f.body.walk():
